@@ -23,6 +23,9 @@ def run(ctx):
     from .. import tagged as _tagged
     from ..gen import Gen as _Gen, Opts as _Opts, module_text as _module_text
     _tagged.run_set_order(ctx, 'C06', ctx.rng, ctx.n(60, 720), impl, ['oer'], _Gen, _Opts, _module_text)
+    from .. import twomark as _twomark, samename as _samename
+    _twomark.run(ctx, 'C06', ctx.rng, ctx.n(60, 700), ['oer'])
+    _samename.run(ctx, 'C06', ctx.rng, ctx.n(4, 40), codecs=['oer'])
 
 
 def replay(ctx, path):
